@@ -5,7 +5,7 @@ CHECK = {
     # Interval.hpp and EigenContainers.hpp are header only
     "srcs": BBOX + ["src/pointset/algorithms/PointSetPreconditioner.cpp"],
     "flavours": ["asan"],
-    "quick": {"shards": 4, "timeout": 600},
+    "quick": {"shards": 8, "timeout": 600},
     "thorough": {"shards": 16, "timeout": 3600},
     "required_categories": [
         "scalar_float", "scalar_double",
